@@ -52,7 +52,7 @@ func (g *c19Gen) stmt(indent int, s string) int {
 func (g *c19Gen) block(indent int, n int, inFunc bool) {
 	for i := 0; i < n && g.budget > 0; i++ {
 		g.budget--
-		k := g.tape.Choose(29)
+		k := g.tape.Choose(30)
 		if g.depth >= 2 && (k == 1 || k == 2 || k == 3 || (k >= 14 && k <= 22)) {
 			k = 0
 		}
@@ -241,6 +241,13 @@ func (g *c19Gen) block(indent int, n int, inFunc bool) {
 			// a deferred function that panics while its function returns normally;
 			// the caller's deferred function recovers
 			g.stmt(indent, "x = outer2(x)")
+		case 29:
+			// a panic which comes from the FIRST node of a loop body, of a loop
+			// condition or of a labeled statement reached by goto, in a later
+			// iteration, in a function that does not recover it (those lines carry no
+			// marker: the marker would be the first node); the caller recovers and
+			// its result depends on the panic value
+			g.stmt(indent, fmt.Sprintf("x = loopg(x, %d)", g.tape.Choose(3)))
 		case 13:
 			// select used sequentially: buffered channel, default clause
 			sc := fmt.Sprintf("sc%d", g.line+1)
@@ -340,6 +347,41 @@ func GenC19(tape *Tape) *C19Prog {
 	g.raw("\t\t}")
 	g.raw("\t}()")
 	g.stmt(1, "return inner2(x) + 1")
+	g.raw("}")
+	g.raw("")
+	g.raw("func pan(n int) int {")
+	g.raw("\tif n >= 2 {")
+	g.raw("\t\tpanic(fmt.Sprint(\"lf\", n*7))")
+	g.raw("\t}")
+	g.raw("\treturn n")
+	g.raw("}")
+	g.raw("")
+	g.raw("func loopf(x, form int) int {")
+	g.raw("\tn := x % 2")
+	g.raw("\tswitch form {")
+	g.raw("\tcase 0:")
+	g.raw("\t\tfor {")
+	g.raw("\t\t\tpan(n)")
+	g.raw("\t\t\tn++")
+	g.raw("\t\t}")
+	g.raw("\tcase 1:")
+	g.raw("\t\tfor i := n; pan(i) < 100; i++ {")
+	g.raw("\t\t\tn += i")
+	g.raw("\t\t}")
+	g.raw("\t}")
+	g.raw("again:")
+	g.raw("\tpan(n)")
+	g.raw("\tn++")
+	g.raw("\tgoto again")
+	g.raw("}")
+	g.raw("")
+	g.raw("func loopg(x, form int) (r int) {")
+	g.fline["loopg"] = g.stmt(1, "defer func() {")
+	g.stmt(2, "if e := recover(); e != nil {")
+	g.stmt(3, "r = x + len(fmt.Sprint(e))")
+	g.raw("\t\t}")
+	g.raw("\t}()")
+	g.stmt(1, "return loopf(x, form)")
 	g.raw("}")
 	g.raw("")
 	g.raw("func safe(x int) (r int) {")
@@ -458,7 +500,7 @@ func GenC19(tape *Tape) *C19Prog {
 	}
 	g.stmt(1, "fmt.Println(\"end\", x)")
 	g.raw("}")
-	funcs := append([]string{"add", "safe", "rec", "spawn", "pos", "two", "bump", "fault", "outer2", "inner2"}, g.funcs...)
+	funcs := append([]string{"add", "safe", "rec", "spawn", "pos", "two", "bump", "fault", "outer2", "inner2", "loopg"}, g.funcs...)
 	if hasLong {
 		funcs = append(funcs, "long")
 	}
@@ -779,9 +821,9 @@ func RunC19(t *testing.T, tape *Tape) *Outcome {
 	if tape.Choose(4) == 3 {
 		interruptEvery = 1 + tape.Choose(3)
 	}
-	termAt := 0
+	termAt := -1 // none; 0 = Terminate is the first request of the session, before any resume
 	if prog != nil && len(prog.Tail) == 0 && !twoSessions && tape.Choose(8) == 7 {
-		termAt = 1 + tape.Choose(8)
+		termAt = tape.Choose(9)
 	}
 	if switchAt > 0 {
 		pname += fmt.Sprintf(" [replace set at break %d: lines %d funcs %v]", switchAt, len(lineBP2), funcBP2)
@@ -789,7 +831,7 @@ func RunC19(t *testing.T, tape *Tape) *Outcome {
 	if interruptEvery > 0 {
 		pname += fmt.Sprintf(" [Interrupt after every %d resume requests]", interruptEvery)
 	}
-	if termAt > 0 {
+	if termAt >= 0 {
 		pname += fmt.Sprintf(" [Terminate at stop %d]", termAt)
 	}
 	o.Desc = fmt.Sprintf("%s bp=%s(lines %d, funcs %v, late=%v) policy=%s", pname, [...]string{"none", "every-line", "subset", "funcs", "mix"}[bpMode], len(lineBP), funcBP, lateBP,
@@ -948,7 +990,7 @@ func RunC19(t *testing.T, tape *Tape) *Outcome {
 			gid := 0 // the goroutine to resume: the one that reported the last stop
 		session:
 			for {
-				if termAt > 0 && stopsSeen >= termAt {
+				if termAt >= 0 && stopsSeen >= termAt {
 					// end the session while the program is stopped
 					// (Terminate "attempts to terminate the program": it reaches the
 					// goroutines that pass through the debugger, not one blocked in a
